@@ -6,6 +6,7 @@ import (
 	"crypto/sha512"
 	"encoding/json"
 	"fmt"
+	"github.com/trustbloc/sidetree-core-go/pkg/api/operation"
 	"sort"
 	"strings"
 	"sync"
@@ -393,7 +394,7 @@ func C08(c *ev.Ctx) {
 	c.Cov.Evaluations = evals
 	c.Cov.DistinctNontrivial = nt
 	c.Cov.Exhaustive = true
-	c.Cov.Rule = "Identity.tla case families x both hash algorithms: (hash) 5 spellings (canonical, members reordered, whitespace, escapes, number spellings) x 5 alteration classes expanded to every member / every byte position of a model with escapes, numbers and nesting; (validate) 7 ways the presented multihash was made (own/other algorithm, other value, digest relabelled, truncated, garbage, empty) x spellings; (commit) 5 key types x nonce: commitment = hash of decoded reveal value, both recomputed independently (sha256/sha512 + hand-encoded multihash); (longform) 14 initial-state classes (canonical, reordered, whitespace, every suffix-data / delta member altered, added member, bad / padded base64, trailing bits, every byte position changed, empty, non-JSON) x suffix (match, other hash, leading / trailing characters dropped, characters added), resolved by the real DocumentHandler over an empty store."
+	c.Cov.Rule = "Identity.tla case families x both hash algorithms: (hash) 5 spellings (canonical, members reordered, whitespace, escapes, number spellings) x 5 alteration classes expanded to every member / every byte position of a model with escapes, numbers and nesting; (validate) 7 ways the presented multihash was made (own/other algorithm, other value, digest relabelled, truncated, garbage, empty) x spellings; (commit) 5 key types x nonce: commitment = hash of decoded reveal value, both recomputed independently (sha256/sha512 + hand-encoded multihash); (longform) 14 initial-state classes (canonical, reordered, whitespace, every suffix-data / delta member altered, added member, bad / padded base64, trailing bits, every byte position changed, empty, non-JSON) x suffix (match, other hash, leading / trailing characters dropped, characters added), resolved by the real DocumentHandler over an empty store, and with the DID's create sitting in the unpublished-operation store."
 	c.Finish("model_checking")
 }
 
@@ -404,6 +405,29 @@ func jwkValue(j *jws.JWK) interface{} {
 	var v interface{}
 	_ = json.Unmarshal(raw, &v)
 	return v
+}
+
+// newResolverUnpub: the same handler, but the DID's create request sits in the unpublished-operation store (accepted,
+// not yet anchored).
+func newResolverUnpub(alg uint, suffix string, createReq []byte) *dochandler.DocumentHandler {
+	params := wire.Params(alg)
+	v := wire.NewResolutionVersion(params)
+	v.Validator = didvalidator.New()
+	v.Transformer = didtransformer.New()
+	pc := &wire.Client{Versions: []protocol.Version{v}}
+	unpub := suffixStore{suffix: &operation.AnchoredOperation{Type: operation.TypeCreate, UniqueSuffix: suffix, OperationRequest: createReq}}
+	proc := processor.New("did:sidetree", wire.NewOpStore(), pc, processor.WithUnpublishedOperationStore(unpub))
+	return dochandler.New("did:sidetree", nil, pc, nil, proc, noMetricsDH{})
+}
+
+// suffixStore is an unpublished-operation store holding one operation per suffix.
+type suffixStore map[string]*operation.AnchoredOperation
+
+func (s suffixStore) Get(suffix string) ([]*operation.AnchoredOperation, error) {
+	if op, ok := s[suffix]; ok {
+		return []*operation.AnchoredOperation{op}, nil
+	}
+	return nil, fmt.Errorf("not found")
 }
 
 func longFormCase(c *ev.Ctx, cs *idCase, viol func(string, interface{})) int64 {
@@ -527,10 +551,27 @@ func longFormVariant(c *ev.Ctx, cs *idCase, viol func(string, interface{}), pad 
 		segs = []string{b64e([]byte("not json")), b64e([]byte(`[1,2]`)), b64e([]byte(`null`))}
 	}
 	dh := newResolver(alg)
+	dhU := newResolverUnpub(alg, suffix, req)
 	var n int64
 	for _, seg := range segs {
 		for _, suffix := range suffixes {
 			did := "did:sidetree:" + suffix + ":" + seg
+			// nothing is anchored either when the create has merely been accepted (unpublished-operation store)
+			func() {
+				defer func() {
+					if r := recover(); r != nil {
+						viol("resolve-panics:"+cs.C.Segment, map[string]string{"did": did, "panic": fmt.Sprint(r), "create": "in the unpublished-operation store"})
+					}
+				}()
+				_, uerr := dhU.ResolveDocument(did)
+				n++
+				if cs.Out == "rejected" && uerr == nil {
+					viol("altered-long-form-resolves-while-create-is-unpublished:"+cs.C.Segment+":suffix-"+cs.C.Suffix, map[string]string{"did": did})
+				}
+				if cs.Out == "resolves" && uerr != nil {
+					viol("canonical-long-form-rejected-while-create-is-unpublished", map[string]string{"did": did, "error": uerr.Error()})
+				}
+			}()
 			var rerr error
 			func() {
 				defer func() {
